@@ -1492,6 +1492,8 @@ class CParser:
             coord = decl.coord
         elif spec["type"]:
             coord = spec["type"][0].coord
+        elif spec["alignment"]:
+            coord = spec["alignment"][0].coord
 
         typename = c_ast.Typename(
             name="",
